@@ -117,6 +117,7 @@ pub struct PathState {
     pub lin_stage_hits: u64,
     /// obligations already discharged on this path (the path condition only grows)
     proved: std::collections::HashSet<u32>,
+    dump_next: Option<String>,
     /// fork on "denominator == 0" (IEEE-faithful) or assume denominators non-zero (recorded)
     pub fork_div_zero: bool,
     pub assumed_nonzero: u64,
@@ -236,6 +237,7 @@ impl PathState {
         }
         let mut body = em.preamble();
         let d = real_lit(delta);
+        let _ = &mut body;
         for (c, v) in pcs.iter().chain(extra.iter()) {
             let line = match (&self.arena.conds[*c as usize], *v) {
                 (CNode::Lt(a, b), true) | (CNode::Le(a, b), true) => format!("(assert (<= (+ {} {}) {}))\n", em.nref_pub(*a), d, em.nref_pub(*b)),
@@ -244,6 +246,62 @@ impl PathState {
                 (_, false) => format!("(assert (not {}))\n", em.cond_str(*c)),
             };
             body.push_str(&line);
+        }
+        // functional consistency of the tape functions (Ackermann expansion): two applications of the same
+        // function with equal arguments have equal values -- the syntactic memoisation only identifies identical terms
+        {
+            let tvars: Vec<u32> = em.used_vars.iter().cloned().filter(|v| self.arena.vars[*v as usize].tape.is_some()).collect();
+            // argument terms must be part of the query
+            let mut em2 = Emit::new(&self.arena);
+            for (c, _) in pcs.iter().chain(extra.iter()) {
+                em2.visit_cond(*c);
+            }
+            let mut pairs: Vec<(u32, u32)> = vec![];
+            for i in 0..tvars.len() {
+                for j in 0..i {
+                    let (a, b) = (&self.arena.vars[tvars[i] as usize], &self.arena.vars[tvars[j] as usize]);
+                    let (ta, tb) = (a.tape.as_ref().unwrap(), b.tape.as_ref().unwrap());
+                    if ta.0 == tb.0 && ta.1.len() == tb.1.len() && pairs.len() < 600 {
+                        pairs.push((tvars[i], tvars[j]));
+                    }
+                }
+            }
+            if !pairs.is_empty() {
+                let mut conds: Vec<u32> = vec![];
+                for (x, y) in &pairs {
+                    let ax = self.arena.vars[*x as usize].tape.as_ref().unwrap().1.clone();
+                    let ay = self.arena.vars[*y as usize].tape.as_ref().unwrap().1.clone();
+                    for k in 0..ax.len() {
+                        conds.push(ax[k]);
+                        conds.push(ay[k]);
+                    }
+                }
+                for n in &conds {
+                    em.visit_term(*n);
+                }
+                if !em.has_nonfinite {
+                    body = em.preamble();
+                    for (c, v) in pcs.iter().chain(extra.iter()) {
+                        let line = match (&self.arena.conds[*c as usize], *v) {
+                            (CNode::Lt(a, b), true) | (CNode::Le(a, b), true) => format!("(assert (<= (+ {} {}) {}))\n", em.nref_pub(*a), d, em.nref_pub(*b)),
+                            (CNode::Lt(a, b), false) | (CNode::Le(a, b), false) => format!("(assert (<= (+ {} {}) {}))\n", em.nref_pub(*b), d, em.nref_pub(*a)),
+                            (_, true) => format!("(assert {})\n", em.cond_str(*c)),
+                            (_, false) => format!("(assert (not {}))\n", em.cond_str(*c)),
+                        };
+                        body.push_str(&line);
+                    }
+                    for (x, y) in &pairs {
+                        let ax = self.arena.vars[*x as usize].tape.as_ref().unwrap().1.clone();
+                        let ay = self.arena.vars[*y as usize].tape.as_ref().unwrap().1.clone();
+                        let mut eqs = String::new();
+                        for k in 0..ax.len() {
+                            eqs.push_str(&format!(" (= {} {})", em.nref_pub(ax[k]), em.nref_pub(ay[k])));
+                        }
+                        body.push_str(&format!("(assert (=> (and true{}) (= v{} v{})))\n", eqs, x, y));
+                    }
+                }
+            }
+            let _ = em2;
         }
         if diversify {
             // generic (non-degenerate) tape functions: value_k = B + s * r_k with pseudo-random r_k,
@@ -306,6 +364,11 @@ impl PathState {
             return (Verdict::Unsat, HashMap::new(), 0, false);
         }
         let (body, nl, nonfinite, vars) = self.query_text(extra, full, false);
+        if let Some(tag) = self.dump_next.take() {
+            static N: std::sync::atomic::AtomicUsize = std::sync::atomic::AtomicUsize::new(0);
+            let k = N.fetch_add(1, std::sync::atomic::Ordering::SeqCst);
+            let _ = std::fs::write(format!("/tmp/symx-ob-{}-{}.smt2", tag.replace('/', "_"), k), format!("{}(check-sat)\n", body));
+        }
         if nonfinite {
             self.notes.push("query mentions a non-finite constant: inconclusive".into());
             return (Verdict::Unknown, HashMap::new(), body.len(), nl);
@@ -498,6 +561,11 @@ pub fn prove(name: &str, c: u32, strong_neg: Option<u32>) {
             });
             return;
         }
+        if let Ok(pat) = std::env::var("SYMX_DUMP_OB") {
+            if name.contains(&pat) {
+                st.dump_next = Some(name.to_string());
+            }
+        }
         let (v, _, bytes, nl) = if c == C_FALSE { (Verdict::Sat, HashMap::new(), 0, false) } else { st.check(&[(c, false)], false, false) };
         let mut rec = ObRecord {
             name: name.to_string(),
@@ -509,6 +577,9 @@ pub fn prove(name: &str, c: u32, strong_neg: Option<u32>) {
             solver_s: 0.0,
             trivial: false,
         };
+        if std::env::var("SYMX_PATHLOG").is_ok() {
+            st.notes.push(format!("ob {} := {}  -> {:?}", name, st.arena.cshow(c, 6), v));
+        }
         match v {
             Verdict::Unsat => {
                 rec.status = ObStatus::Discharged;
@@ -528,6 +599,21 @@ pub fn prove(name: &str, c: u32, strong_neg: Option<u32>) {
                         }
                     }
                 }
+                // is the counterexample an artefact of a tape that is not a function?  re-check the full path
+                // with functional-consistency constraints (margin 0)
+                if !got {
+                    let (vf, mf) = st.check_robust(&[(c, false)], 0.0, false);
+                    if vf == Verdict::Unsat {
+                        rec.status = ObStatus::Discharged;
+                        st.proved.insert(c);
+                        rec.solver_s = st.solver.seconds + st.solver2.seconds - t0;
+                        st.obligations.push(rec);
+                        return;
+                    }
+                    if vf == Verdict::Sat {
+                        rec.model = mf;
+                    }
+                }
                 if !got {
                     for (delta, div) in [(1e-6, true), (1e-9, true), (1e-6, false), (1e-9, false)] {
                         let (vr, mr) = st.check_robust(&[(c, false)], delta, div);
@@ -538,7 +624,7 @@ pub fn prove(name: &str, c: u32, strong_neg: Option<u32>) {
                         }
                     }
                 }
-                if !got {
+                if !got && rec.model.is_empty() {
                     let (v3, m3, _, _) = st.check(&[(c, false)], true, true);
                     if v3 == Verdict::Sat {
                         rec.model = m3;
@@ -645,6 +731,7 @@ pub fn run_path(cfg: &Cfg, tape: Vec<bool>, body: &(dyn Fn() + Sync), want_pc_mo
         lin_cache: HashMap::new(),
         lin_stage_hits: 0,
         proved: std::collections::HashSet::new(),
+        dump_next: None,
         fork_div_zero: true,
         assumed_nonzero: 0,
         log: vec![],
